@@ -3,6 +3,7 @@ package verifh
 import (
 	"github.com/tink-crypto/tink-go/v2/internal/protoserialization"
 	"github.com/tink-crypto/tink-go/v2/internal/verifrt"
+	"github.com/tink-crypto/tink-go/v2/internal/verifspec"
 	"github.com/tink-crypto/tink-go/v2/key"
 	tinkpb "github.com/tink-crypto/tink-go/v2/proto/tink_go_proto"
 )
@@ -38,6 +39,8 @@ func CheckKeyRoundTrip(k key.Key, ks KeySer, kp KeyPar, ps ParSer, pp ParPar, ki
 	k2, err := kp.ParseKey(s1)
 	verifrt.Assert(err == nil, "ParseKey accepts its own serialization")
 	verifrt.Assert(k2.Equal(k) && k.Equal(k2), "parsed key Equal to the original")
+	checkOutputPrefix(k, kind, id, "key")
+	checkOutputPrefix(k2, kind, id, "parsed key")
 	s2, err := ks.SerializeKey(k2)
 	verifrt.Assert(err == nil, "second SerializeKey succeeds")
 	verifrt.AssertEq(s2.KeyData().GetValue(), s1.KeyData().GetValue(), "second serialization is byte-identical")
@@ -77,6 +80,8 @@ func CheckKeyRoundTripOnly(k key.Key, ks KeySer, kp KeyPar, kind int, id uint32,
 	k2, err := kp.ParseKey(s1)
 	verifrt.Assert(err == nil, "ParseKey accepts its own serialization")
 	verifrt.Assert(k2.Equal(k) && k.Equal(k2), "parsed key Equal to the original")
+	checkOutputPrefix(k, kind, id, "key")
+	checkOutputPrefix(k2, kind, id, "parsed key")
 	s2, err := ks.SerializeKey(k2)
 	verifrt.Assert(err == nil, "second SerializeKey succeeds")
 	verifrt.AssertEq(s2.KeyData().GetValue(), s1.KeyData().GetValue(), "second serialization is byte-identical")
@@ -102,4 +107,18 @@ func CheckParamsLossyRoundTrip(p, expect key.Parameters, ps ParSer, pp ParPar, k
 	verifrt.AssertEq(t2.GetValue(), t1.GetValue(), "second template is byte-identical")
 	verifrt.Assert(t2.GetTypeUrl() == t1.GetTypeUrl() && t2.GetOutputPrefixType() == t1.GetOutputPrefixType(), "second template: same type URL and prefix type")
 	verifrt.Reach("params-roundtrip-ok")
+}
+
+type prefixed interface{ OutputPrefix() []byte }
+
+// checkOutputPrefix: a key object that reports an output prefix reports the standard one for
+// its variant and id: 0x01 || be32(id) for TINK, 0x00 || be32(id) for CRUNCHY and LEGACY, none
+// for RAW.
+func checkOutputPrefix(k key.Key, kind int, id uint32, what string) {
+	if kind > 3 {
+		return
+	}
+	if p, ok := k.(prefixed); ok {
+		verifrt.AssertEq(p.OutputPrefix(), verifspec.Prefix(kind, id), what+": output prefix is the standard one for the variant and id")
+	}
 }
